@@ -4,6 +4,7 @@ import (
 	"go/ast"
 	"go/token"
 	"go/types"
+	"strings"
 )
 
 func init() {
@@ -348,6 +349,88 @@ func init() {
 							}
 						}
 					}
+				}
+			}
+			// the collection of successors, and the loop that pushes them, depend on nothing but the kind of the
+			// entry and the visited test: no other condition may skip an edge
+			{
+				var sites []ast.Node
+				if succLoop != nil {
+					sites = append(sites, succLoop)
+				}
+				ast.Inspect(v.loop.Body, func(nd ast.Node) bool {
+					as, ok := nd.(*ast.AssignStmt)
+					if !ok || len(as.Rhs) != 1 || len(as.Lhs) != 1 {
+						return true
+					}
+					if ap := fi.isBuiltin(as.Rhs[0], "append"); ap != nil && len(ap.Args) == 2 && fi.varOf(as.Lhs[0]) != v.stk {
+						if f := fi.selField(ap.Args[1]); f != nil && (f.Name() == "Type" || f.Name() == "Parent") {
+							sites = append(sites, as)
+						}
+					}
+					return true
+				})
+				var extra []string
+				for _, site := range sites {
+					for _, g := range fi.GuardsWithin(site, v.loop.Body) {
+						if !acyclicKindGuard(fi, v, g.Expr) {
+							extra = append(extra, exprShort(g.Expr))
+						}
+					}
+				}
+				// … nor may anything before them leave the iteration on another condition
+				last := 0
+				for _, site := range sites {
+					if o := startOf(site); o > last {
+						last = o
+					}
+				}
+				var walk func(n ast.Node, inLoop, inSwitch bool)
+				walk = func(n ast.Node, inLoop, inSwitch bool) {
+					ast.Inspect(n, func(m ast.Node) bool {
+						if m == nil || m == n {
+							return true
+						}
+						switch s := m.(type) {
+						case *ast.FuncLit:
+							return false
+						case *ast.ForStmt:
+							walk(s.Body, true, false)
+							return false
+						case *ast.RangeStmt:
+							walk(s.Body, true, false)
+							return false
+						case *ast.SwitchStmt:
+							walk(s.Body, inLoop, true)
+							return false
+						case *ast.TypeSwitchStmt:
+							walk(s.Body, inLoop, true)
+							return false
+						case *ast.SelectStmt:
+							walk(s.Body, inLoop, true)
+							return false
+						case *ast.ReturnStmt:
+						case *ast.BranchStmt:
+							if s.Label == nil && (inLoop || (s.Tok == token.BREAK && inSwitch) || s.Tok == token.FALLTHROUGH) {
+								return true
+							}
+						default:
+							return true
+						}
+						if startOf(m) >= last {
+							return true
+						}
+						for _, g := range fi.GuardsWithin(m, v.loop.Body) {
+							if !acyclicKindGuard(fi, v, g.Expr) {
+								extra = append(extra, "leaves the iteration when "+exprShort(g.Expr))
+							}
+						}
+						return true
+					})
+				}
+				walk(v.loop.Body, false, false)
+				if len(sites) > 0 {
+					r.Check(len(extra) == 0, "successors/unconditional", v.loop.Pos(), "which edges are followed depends only on the kind of the entry and the visited test (%d collection sites; other conditions: %v)", len(sites), extra)
 				}
 			}
 			r.Check(succProvider, "successors/provider-args", v.loop.Pos(), "a provider's successors are the types of ALL its Args")
@@ -980,6 +1063,53 @@ type acyclic struct {
 	visited, stk, curr *types.Var
 	head               ast.Expr
 	loop               *ast.ForStmt
+}
+
+// acyclicKindGuard reports whether a condition in verifyAcyclic's search loop is one of the tests that
+// legitimately select what is expanded: a kind test of the map entry, the entry being absent, the visited
+// test, or a boolean combination of those.
+func acyclicKindGuard(fi *FuncInfo, v *acyclic, e ast.Expr) bool {
+	e = ast.Unparen(e)
+	switch x := e.(type) {
+	case *ast.UnaryExpr:
+		if x.Op == token.NOT {
+			return acyclicKindGuard(fi, v, x.X)
+		}
+	case *ast.BinaryExpr:
+		switch x.Op {
+		case token.LAND, token.LOR:
+			return acyclicKindGuard(fi, v, x.X) && acyclicKindGuard(fi, v, x.Y)
+		case token.EQL, token.NEQ:
+			a, b := x.X, x.Y
+			if fi.isNilIdent(a) {
+				a, b = b, a
+			}
+			if fi.isNilIdent(b) {
+				if at := fi.isCall(fi.deref(a), fnMapAt); at != nil && fi.varOf(recvOf(at)) != nil && fi.isParam(fi.varOf(recvOf(at))) {
+					return true
+				}
+			}
+		}
+	case *ast.CallExpr:
+		if fn := fi.calleeName(x); strings.HasPrefix(fn, pathW+".ProvidedType.Is") {
+			return true
+		}
+	case *ast.Ident:
+		d := fi.defOf(x)
+		if d == nil {
+			return false
+		}
+		if ta, ok := ast.Unparen(d.rhs).(*ast.TypeAssertExpr); ok {
+			if at := fi.isCall(fi.deref(ta.X), fnMapAt); at != nil {
+				return true // the visited test, or the comma-ok of the entry's own type assertion
+			}
+		}
+	case *ast.TypeAssertExpr:
+		if at := fi.isCall(fi.deref(x.X), fnMapAt); at != nil && fi.varOf(recvOf(at)) == v.visited {
+			return true
+		}
+	}
+	return false
 }
 
 func acyclicAnchors(fi *FuncInfo) *acyclic {
